@@ -433,7 +433,7 @@ pub fn check_str_vs_slice(case: &StreamCase, refs: &mut Refs, mon: &mut Mon) {
 }
 
 /// Enumerate the fault dimension for one base scenario (DESIGN 5.1).
-pub fn sweep(base: &StreamCase, offsets: Option<&[usize]>, parity: bool, mon: &mut Mon, mut on_violation: impl FnMut(&StreamCase, &Violation)) {
+pub fn sweep(base: &StreamCase, offsets: Option<&[usize]>, salt: usize, mon: &mut Mon, mut on_violation: impl FnMut(&StreamCase, &Violation)) {
     let mut refs = Refs::new();
     {
         let before = mon.violations.len();
@@ -480,13 +480,15 @@ pub fn sweep(base: &StreamCase, offsets: Option<&[usize]>, parity: bool, mon: &m
         c.plan.faults = vec![ReadFault {
             at: k,
             kind: ReadFaultKind::Hard(KINDS[k % KINDS.len()]),
-            sticky: (k % 2 == 0) ^ parity,
+            sticky: (k % 2 == 0) ^ (salt & 1 == 1),
             id: 1000 + k as u64,
+            // the payload class changes every 7 offsets, so that every kind meets every class
+            payload: payload_for(k / 7 + salt / 2),
         }];
         run_one(c, &mut refs, mon);
         if k < len {
             let mut c = base.clone();
-            c.plan.faults = vec![ReadFault { at: k, kind: ReadFaultKind::Eof, sticky: true, id: 5000 + k as u64 }];
+            c.plan.faults = vec![ReadFault { at: k, kind: ReadFaultKind::Eof, sticky: true, id: 5000 + k as u64, payload: Payload::Custom }];
             run_one(c, &mut refs, mon);
         }
     }
@@ -571,7 +573,7 @@ pub fn check_trunc_case(case: &TruncCase, mon: &mut Mon) {
             adapter: case.adapter.clone(),
             chunks: case.chunks.clone(),
             interrupts: Interrupts::None,
-            faults: vec![ReadFault { at: k, kind: ReadFaultKind::Eof, sticky: true, id: 1 }],
+            faults: vec![ReadFault { at: k, kind: ReadFaultKind::Eof, sticky: true, id: 1, payload: Payload::Custom }],
         },
     };
     let run = run_stream(&sc, mon);
